@@ -398,7 +398,8 @@ VOD_PERIODS = Contract(
     loops={0: Loop(
         invariant=[('it', '0 <= _it0 and _it0 <= np'),
                    ('len', 'length(self.periods) == _it0'),
-                   ('start', 'micros(start) == PS(_it0)'),
+                   # the running total, where the code keeps it in a local called `start` (a temporary, not part of the property)
+                   ('start', "(micros(start) == PS(_it0)) if bound('start') else True"),
                    ('listed', 'forall(lambda k: optval(self.periods[k].start) == PS(k) and not is_none(self.periods[k].start) and '
                               'not is_none(self.periods[k].duration) and optval(self.periods[k].duration) == pdur(k) and '
                               'self.periods[k].src == k, 0, length(self.periods))')],
